@@ -195,6 +195,7 @@ namespace chaiscript {
         return true;
       }
 
+      infile.clear(); // a file shorter than 3 bytes sets failbit in read(), which turns seekg() into a no-op
       infile.seekg(0);
 
       return false;
